@@ -5,6 +5,8 @@ from concurrent.futures import ThreadPoolExecutor
 
 VERIF = os.path.dirname(os.path.dirname(os.path.abspath(__file__)))
 DRIVER = os.path.join(VERIF, 'ocaml', 'model_driver')
+#: numbers of the properties whose model does not build (partial driver, see build.build_partial_driver)
+NO_MODEL = set()
 
 
 def enc(v):
@@ -72,6 +74,10 @@ def batch(reqs, workers=None):
 	reqs = list(reqs)
 	if not reqs:
 		return []
+	if NO_MODEL:
+		for op, _ in reqs:
+			if op // 100 in NO_MODEL:
+				raise ModelError(f'the model of property C{op // 100:02d} does not build; request {op} cannot be answered')
 	lines = [f'{op} {enc(v)}' for op, v in reqs]
 	workers = workers or min(16, os.cpu_count() or 1)
 	if len(lines) < 64:
